@@ -297,6 +297,16 @@ class Expr:
         raise ExtractError(f"kernel expression: unexpected `{k}`")
 
 
+_fn_body_by_header = fn_body
+
+
+def fn_body(src, where, what=None):
+    """Two call shapes grew independently: (src, start_index) and (src, header_regex, what)."""
+    if isinstance(where, int):
+        return block_at(src, where)
+    return _fn_body_by_header(src, where, what)
+
+
 def codec_extract():
     ip = strip_comments(read(os.path.join(CORE, "protocols", "ipv4", "ipv4_parsing.rs"))).split("#[cfg(test)]")[0]
     ud = strip_comments(read(os.path.join(CORE, "protocols", "udp", "udp_parsing.rs"))).split("#[cfg(test)]")[0]
@@ -840,6 +850,91 @@ def gen_socket_cert():
     write_if_changed("SocketCert.lean", "\n".join(lines))
 
 
+def gen_dns_cert():
+    """C20: how the DNS responder reads its request (whole datagram vs. a byte budget), the
+    records `DnsServer::start` inserts itself, the well-known server endpoint, the delimiter,
+    and that the client resolves on a fresh connected datagram socket and caches the answer."""
+    srv = strip_comments(read(os.path.join(CORE, "protocols", "dns", "dns_server.rs"))).split("#[cfg(test)]")[0]
+    cli = strip_comments(read(os.path.join(CORE, "protocols", "dns", "dns_client.rs"))).split("#[cfg(test)]")[0]
+    par = strip_comments(read(os.path.join(CORE, "protocols", "dns", "dns_parsing.rs"))).split("#[cfg(test)]")[0]
+    adr = strip_comments(read(os.path.join(CORE, "protocols", "ipv4", "ipv4_address.rs")))
+    m = re.search(r"async\s+fn\s+respond_to_query\s*\(", srv)
+    if not m:
+        raise ExtractError("dns_server.rs: respond_to_query not found")
+    body = re.sub(r"\s+", "", fn_body(srv, srv.index("DnsServerError", m.end())))
+    reads = re.findall(r"socket\.(recv_msg\(\)|recv\((\d+)\))\.await", body)
+    if len(reads) != 1:
+        raise ExtractError("dns_server.rs: respond_to_query should read its socket exactly once, found %d reads" % len(reads))
+    whole = reads[0][0] == "recv_msg()"
+    budget = 0 if whole else int(reads[0][1])
+    sm = re.search(r"impl\s+Protocol\s+for\s+DnsServer\s*\{", srv)
+    if not sm:
+        raise ExtractError("dns_server.rs: impl Protocol for DnsServer not found")
+    start = fn_body(srv, sm.end() - 1)
+    calls = re.findall(r'self\.(add_mapping|add_default_mapping)\(\s*"([^"\\]*)"\.to_string\(\)\s*,\s*\[(\d+),\s*(\d+),\s*(\d+),\s*(\d+)\]\.into\(\)\s*\)', start)
+    if len(calls) != len(re.findall(r"add_(?:default_)?mapping\(", start)):
+        raise ExtractError("dns_server.rs: a mapping inserted by DnsServer::start is not of the literal form")
+    kinds = {c[0] for c in calls}
+    if len(kinds) > 1:
+        raise ExtractError("dns_server.rs: DnsServer::start mixes add_mapping and add_default_mapping")
+    overrides = kinds == {"add_mapping"}
+    if "add_default_mapping" in kinds:
+        dm = re.search(r"fn\s+add_default_mapping\s*\(\s*&self\s*,\s*name\s*:\s*String\s*,\s*ip\s*:\s*Ipv4Address\s*\)", srv)
+        if not dm or re.sub(r"\s+", "", fn_body(srv, dm.end())) != "{self.name_to_ip.entry(name).or_insert(ip);}":
+            raise ExtractError("dns_server.rs: add_default_mapping is not `self.name_to_ip.entry(name).or_insert(ip);`")
+    am_ = re.search(r"pub\s+fn\s+add_mapping\s*\(\s*&self\s*,\s*name\s*:\s*String\s*,\s*ip\s*:\s*Ipv4Address\s*\)", srv)
+    if not am_ or re.sub(r"\s+", "", fn_body(srv, am_.end())) != "{self.name_to_ip.insert(name,ip);}":
+        raise ExtractError("dns_server.rs: add_mapping is not `self.name_to_ip.insert(name, ip);`")
+    builtin = [c[1:] for c in calls]
+    pm = re.search(r"let local_port = (\d+);", start)
+    cm = re.search(r"Endpoint::new\(Ipv4Address::DNS_AUTH,\s*(\d+)\)", cli)
+    am = re.search(r"pub const DNS_AUTH: Self = Self\(\[(\d+)u8, (\d+), (\d+), (\d+)\]\);", adr)
+    if not (pm and cm and am):
+        raise ExtractError("dns: server port / client remote endpoint / DNS_AUTH literal not found")
+    delims = set(re.findall(r"b'(.)'", par))
+    if delims != {" "}:
+        raise ExtractError("dns_parsing.rs: the name delimiter is no longer the single literal b' ': %r" % sorted(delims))
+    flat = re.sub(r"\s+", " ", cli)
+    gm = re.search(r"pub async fn get_host_by_name\(", flat)
+    if not gm:
+        raise ExtractError("dns_client.rs: get_host_by_name not found")
+    g = fn_body(flat, gm.end())
+    # order of the calls that matter (names of locals are not part of the certificate)
+    order = ["self.get_mapping(&name)", "Ok(ip) => Ok(ip)", ".new_socket(", ".connect(", ".send(", ".recv_msg()", "DnsMessage::from_bytes(",
+             "self.add_mapping(", "self.get_mapping(&name)"]
+    pos = []
+    at = 0
+    for t in order:
+        at = g.find(t, at)
+        pos.append(at)
+        if at < 0:
+            break
+        at += len(t)
+    shape = all(p >= 0 for p in pos) and g.count(".send(") == 1 and g.count("new_socket(") == 1 and g.count("add_mapping(") == 1 \
+        and "SocketType::Datagram" in g
+    lines = ["-- GENERATED from /repo sources by tools/extract.py on every check; do not edit",
+             "namespace Elvis.Gen",
+             "/-- `respond_to_query` reads its request with `recv_msg()` (the whole datagram) -/",
+             f"def dnsServerReadsWholeDatagram : Bool := {'true' if whole else 'false'}",
+             "/-- byte budget of `recv(n)` when it does not (0 = reads the whole datagram) -/",
+             f"def dnsServerRecvBudget : Nat := {budget}",
+             "/-- records `DnsServer::start` inserts itself, in order: name (UTF-8 bytes), address bytes: "
+             + ", ".join(n for n, *_ in builtin) + " -/",
+             "def dnsBuiltinRecords : List (List Nat × (Nat × Nat × Nat × Nat)) := ["
+             + ", ".join(f'({list(n.encode("utf-8"))}, ({a}, {b}, {c}, {d}))' for n, a, b, c, d in builtin) + "]",
+             "/-- they are inserted with `add_mapping` (replacing a configured record of the same name) -/",
+             f"def dnsBuiltinOverrides : Bool := {'true' if overrides else 'false'}",
+             f"def dnsServerPort : Nat := {pm.group(1)}",
+             f"def dnsClientRemotePort : Nat := {cm.group(1)}",
+             f"def dnsAuthAddr : Nat × Nat × Nat × Nat := ({am.group(1)}, {am.group(2)}, {am.group(3)}, {am.group(4)})",
+             "/-- `get_host_by_name`: cache lookup first and `Ok(ip)` on a hit without any other call; on a",
+             "    miss exactly one new datagram socket, connect, one send, `recv_msg`, parse, cache insert of",
+             "    the answer's name, lookup of the requested name — in this order (token-level scan) -/",
+             f"def dnsClientShape : Bool := {'true' if shape else 'false'}",
+             "end Elvis.Gen", ""]
+    write_if_changed("DnsCert.lean", "\n".join(lines))
+
+
 def main():
     check_message_immutability()
     gen_sim_cert()
@@ -855,6 +950,7 @@ def main():
     consts += stack_consts()
     consts += ["end Elvis.Gen", ""]
     gen_socket_cert()
+    gen_dns_cert()
     write_if_changed("Consts.lean", "\n".join(consts))
 
 
